@@ -341,6 +341,8 @@ func (s *socket) Close() error {
 }
 
 func (s *socket) AddPipe(pp protocol.Pipe) error {
+	s.Lock()
+	defer s.Unlock()
 	p := &pipe{
 		p:      pp,
 		s:      s,
@@ -348,8 +350,6 @@ func (s *socket) AddPipe(pp protocol.Pipe) error {
 		sendQ:  make(chan *protocol.Message, s.sendQLen),
 	}
 	pp.SetPrivate(p)
-	s.Lock()
-	defer s.Unlock()
 	if s.closed {
 		return protocol.ErrClosed
 	}
